@@ -218,6 +218,76 @@ fn gstring(r: &mut Rng) -> String {
 fn el(ns: u16, id: Id, inv: bool, sub: bool, tns: u16, t: Option<&str>) -> El { El { ns, id, inv, sub, tns, tname: t.map(|s| s.to_string()) } }
 fn sid(s: &str) -> Id { Id::Str(Some(s.to_string())) }
 
+// ---- history: printer and parser are meant to be pure, but sit on process-wide state (lazy_static
+// regexes today; a cache or a reused buffer tomorrow).  Every case first runs printer and parser on
+// NEIGHBOURS of the observed path / string (the same names under other namespace indices, the same
+// namespaces with other names, flags flipped, an element more or less, the empty path, a string with a
+// changed digit ...), then the observed operation, then the observed operation a second time; the
+// output is that of the first observed run, with the marker -4 appended if the second differs.  The
+// neighbours are derived from the case alone, so the replay of one case reproduces the history.
+fn nb_elem(e: &El) -> Vec<El> {
+    let mut v = Vec::new();
+    for ns in [e.ns ^ 1, e.ns.wrapping_add(10), if e.ns == 0 { 65535 } else { 0 }] { let mut x = e.clone(); x.ns = ns; v.push(x); }
+    for tns in [e.tns ^ 1, e.tns.wrapping_add(10), if e.tns == 0 { 65535 } else { 0 }] { let mut x = e.clone(); x.tns = tns; if x.tname.is_none() { x.tname = Some("a".into()); } v.push(x); }
+    { let mut x = e.clone(); x.inv = !x.inv; v.push(x); }
+    { let mut x = e.clone(); x.sub = !x.sub; v.push(x); }
+    { let mut x = e.clone(); x.tname = match &e.tname { None => Some("a".into()), Some(t) => { let mut t = t.clone(); t.push('&'); Some(t) } }; v.push(x); }
+    { let mut x = e.clone(); x.tname = match &e.tname { None => Some("/".into()), Some(t) => { let c: Vec<char> = t.chars().collect(); Some(c[..c.len().saturating_sub(1)].iter().collect()) } }; v.push(x); }
+    if let Id::Str(Some(n)) = &e.id {
+        { let mut x = e.clone(); let mut m = n.clone(); m.push('x'); x.id = Id::Str(Some(m)); v.push(x); }
+        { let mut x = e.clone(); x.id = Id::Str(Some(e.tname.clone().unwrap_or_else(|| "a".into()))); x.tname = Some(n.clone()); v.push(x); }
+    }
+    if let Id::Num(n) = &e.id {
+        let k = TABLE_IDS.iter().position(|t| t == n).unwrap_or(0);
+        { let mut x = e.clone(); x.id = Id::Num(TABLE_IDS[(k + 1) % TABLE_IDS.len()]); v.push(x); }
+        { let mut x = e.clone(); x.ns = 1; x.id = Id::Str(Some(TABLE_NAMES[k].to_string())); v.push(x); }
+    }
+    v
+}
+fn nb_paths(es: &[El]) -> Vec<Vec<El>> {
+    let mut v: Vec<Vec<El>> = Vec::new();
+    let a = El { ns: 0, id: Id::Num(33), inv: false, sub: true, tns: 1, tname: Some("a".into()) };
+    if es.is_empty() { v.push(vec![a.clone()]); v.push(vec![a.clone(), a.clone()]); return v; }
+    // neighbours of the first, the last and one middle element, each inside the whole path (short paths)
+    // or alone (long ones)
+    let idx: Vec<usize> = { let mut i = vec![0, es.len() - 1, es.len() / 2]; i.dedup(); i };
+    for &i in &idx {
+        for n in nb_elem(&es[i]) {
+            if es.len() <= 4 { let mut p = es.to_vec(); p[i] = n; v.push(p); } else { v.push(vec![n]); }
+        }
+    }
+    if es.len() <= 40 {
+        let mut p = es.to_vec(); p.push(a.clone()); v.push(p);
+        let mut p = es.to_vec(); p.pop(); v.push(p);
+        let mut p = es.to_vec(); p.reverse(); v.push(p);
+    }
+    v.push(vec![]);
+    v.push(vec![a]);
+    v
+}
+fn nb_strings(s: &str) -> Vec<String> {
+    let c: Vec<char> = s.chars().collect();
+    let mut v: Vec<String> = Vec::new();
+    if c.len() > 600 { return vec![c[..300].iter().collect(), String::new()]; }
+    // every digit changed in turn (at most 6), so that the same names are seen under other namespaces
+    let mut k = 0;
+    for i in 0..c.len() {
+        if c[i].is_ascii_digit() && k < 6 { let mut d = c.clone(); d[i] = if c[i] == '9' { '1' } else { ((c[i] as u8) + 1) as char }; v.push(d.into_iter().collect()); k += 1; }
+    }
+    v.push(format!("{}0", s));
+    v.push(format!("<7:x>{}", s));
+    v.push(format!("/1:{}", s));
+    if !c.is_empty() {
+        v.push(c[..c.len() - 1].iter().collect());
+        v.push(c[1..].iter().collect());
+        v.push(c.iter().filter(|x| **x != '&').collect());
+        v.push(c.iter().map(|x| if *x == '#' { '!' } else if *x == '!' { '#' } else { *x }).collect());
+    }
+    v.push(String::new());
+    v
+}
+fn run_path(es: &[El]) { let p = RelativePath { elements: Some(es.iter().map(to_elem).collect()) }; if let Ok(s) = guarded(|| String::from(&p)) { let _ = parse(&s); } }
+
 impl Property for P {
     type Case = Case;
     fn fixed(tier: &str) -> Vec<Case> {
@@ -316,29 +386,38 @@ impl Property for P {
             Case::Path(es) => {
                 let path = RelativePath { elements: Some(es.iter().map(to_elem).collect()) };
                 let term = format!("(CPath {})", coq_list(es, t_elem));
-                let mut out = Vec::new();
-                let tag;
-                match guarded(|| String::from(&path)) {
-                    Err(_) => { out.push(-2); tag = "path-print-panic".to_string(); }
-                    Ok(s) => {
-                        let c = cps(&s);
-                        out.push(c.len() as i128);
-                        out.extend(c);
-                        let res = parse(&s);
-                        let same = matches!(&res, Ok(Ok(p)) if *p == path);
-                        let maxtok = es.iter().map(|e| printed(&[e.clone()]).map(|s| s.len()).unwrap_or(0)).max().unwrap_or(0);
-                        tag = format!("path-{}{}{}",
-                            if es.is_empty() { "empty" } else if es.len() > 32 { "over32" } else if es.len() >= 30 { "30to32" } else { "small" },
-                            if maxtok > 256 { "-longtoken" } else if maxtok >= 250 { "-token250to256" } else { "" },
-                            if same { "-roundtrip" } else if matches!(res, Ok(Ok(_))) { "-different" } else { "-rejected" });
-                        enc_result(res, &mut out);
+                for n in nb_paths(es) { run_path(&n); }
+                if let Ok(s) = guarded(|| String::from(&path)) { for x in nb_strings(&s) { let _ = parse(&x); } }
+                let observe = |out: &mut Vec<i128>| -> String {
+                    match guarded(|| String::from(&path)) {
+                        Err(_) => { out.push(-2); "path-print-panic".to_string() }
+                        Ok(s) => {
+                            let c = cps(&s);
+                            out.push(c.len() as i128);
+                            out.extend(c);
+                            let res = parse(&s);
+                            let same = matches!(&res, Ok(Ok(p)) if *p == path);
+                            let maxtok = es.iter().map(|e| printed(&[e.clone()]).map(|s| s.len()).unwrap_or(0)).max().unwrap_or(0);
+                            let tag = format!("path-{}{}{}",
+                                if es.is_empty() { "empty" } else if es.len() > 32 { "over32" } else if es.len() >= 30 { "30to32" } else { "small" },
+                                if maxtok > 256 { "-longtoken" } else if maxtok >= 250 { "-token250to256" } else { "" },
+                                if same { "-roundtrip" } else if matches!(res, Ok(Ok(_))) { "-different" } else { "-rejected" });
+                            enc_result(res, out);
+                            tag
+                        }
                     }
-                }
+                };
+                let mut out = Vec::new();
+                let tag = observe(&mut out);
+                let mut again = Vec::new();
+                let _ = observe(&mut again);
+                if again != out { out.push(-4); }
                 Out { tag, term, out }
             }
             Case::Str(s) => {
                 let term = format!("(CStr {})", t_str(s));
                 let mut out = Vec::new();
+                for x in nb_strings(s) { let _ = parse(&x); }
                 let res = parse(s);
                 let tag = match &res {
                     Err(_) => "string-panic".to_string(),
@@ -347,6 +426,9 @@ impl Property for P {
                         if n == 0 { "trivial-string-ok-empty".to_string() } else if n >= 30 { "string-ok-30to32".to_string() } else { "string-ok".to_string() } }
                 };
                 enc_result(res, &mut out);
+                let mut again = Vec::new();
+                enc_result(parse(s), &mut again);
+                if again != out { out.push(-4); }
                 Out { tag, term, out }
             }
         }
